@@ -33,7 +33,7 @@ Definition show_key (k : ckey) : string :=
   end.
 Definition show_cerr (e : option cerr) : string :=
   match e with None => "ok" | Some CTypeErr => "TypeError" | Some CValueErr => "ValueError"
-             | Some CStopIter => "StopIteration" end.
+             | Some CStopIter => "StopIteration" | Some CUnbound => "UnboundLocalError" end.
 
 (* error raised by an operation (only add_path can fail in the model) *)
 Definition hop_err (op : hop) : option cerr :=
